@@ -74,6 +74,12 @@ class ARMRunner:
             if op == "LoadARM":
                 self.load(o["arm"])
                 return "ok", {"k": "none"}
+            if op == "LoadFile":          # a model file of the repository; o["arm"] is its projection (see file_script)
+                self.imp.delete_all_graphs()
+                g = self.imp.import_graph_from_file_direct(graph_file=o["file"])
+                self.ARM_ID = g.graph_id
+                self.g = NetworkXPropertyGraph(graph_id=g.graph_id, importer=self.imp)
+                return "ok", {"k": "none"}
             arm = NetworkXARMGraph(graph=self.g)
             guids = None
             adms = arm.generate_adms(delegation_guids=guids)
@@ -87,6 +93,14 @@ class ARMRunner:
             return "ok", {"k": "adms", "v": out}
         except Exception as e:  # noqa
             return type(e).__name__, {"k": "none"}
+
+
+def file_script(path):
+    """script for a model file: the first line carries the file's own projection as the loaded aggregate"""
+    r = ARMRunner()
+    g = r.imp.import_graph_from_file_direct(graph_file=path)
+    arm = project_graph(r.imp, g.graph_id)
+    return [{"op": "LoadFile", "file": path, "arm": arm}, {"op": "Partition"}, {"op": "PartitionAndRekey"}]
 
 
 def run_script(script):
